@@ -48,7 +48,7 @@ KS_DEFECT = "regenerated tail carries a keysound index"
 
 def need(c, msg):
     if not c:
-        raise Violation(msg)
+        raise Violation(msg() if callable(msg) else msg)
 
 
 def _key(n):
@@ -64,7 +64,8 @@ def _same(out, exp, by_type):
 def plain(L, raw, what):
     out = []
     for n in raw:
-        need(isinstance(n, L.Note), f"{what}: ungroup_notes yielded a {type(n).__name__}: {n!r}")
+        if not isinstance(n, L.Note):
+            raise Violation(f"{what()}: ungroup_notes yielded a {type(n).__name__}: {n!r}")
         out.append((n.beat, n.column, n.note_type.value, n.player, n.keysound_index))
     return out
 
@@ -79,6 +80,7 @@ def compare(out, exp, by_type, what, tails_modulo_keysound=False):
         exp = [(n[0], n[1], n[2], n[3], None) if n[2] == MG.TAIL else n for n in exp]
     if _same(out, exp, by_type):
         return
+    what = what()
     stripped = [(n[0], n[1], n[2], n[3], None) if n[2] == MG.TAIL else n for n in out]
     if _same(stripped, exp, by_type):
         bad = [n for n in out if n[2] == MG.TAIL and n[4] is not None]
@@ -127,17 +129,23 @@ def roundtrip(L, notes, include, extra_off_pairs=((None,), (("drop", "drop"),)),
             exp = [notes[i] for i in idx if not (h == "drop" and i in oh) and not (t == "drop" and i in ot)]
             plans.append((True, pair, exp))
         for join, pair, exp in plans:
-            opts = f"include={'all (omitted)' if include is None else include!r} same_beat={mode} join={join} orphan policies={'omitted' if pair is None else pair}"
+
+            def opts(mode=mode, join=join, pair=pair):
+                return f"include={'all (omitted)' if include is None else include!r} same_beat={mode} join={join} orphan policies={'omitted' if pair is None else pair}"
+
             try:
                 g = list(L.group_notes(rnotes, **group_kwargs(L, include, mode, join, pair)))
             except L.Orphaned as e:
-                raise Violation(f"group_notes on {show(notes)} with {opts} raised OrphanedNoteException({e}) although no orphan falls under a RAISE policy")
+                raise Violation(f"group_notes on {show(notes)} with {opts()} raised OrphanedNoteException({e}) although no orphan falls under a RAISE policy")
             for pol in pols:
-                what = f"ungroup_notes(group_notes({show(notes)}, {opts}), orphaned_notes={pol or 'omitted'})"
+
+                def what(pol=pol, opts=opts):
+                    return f"ungroup_notes(group_notes({show(notes)}, {opts()}), orphaned_notes={pol or 'omitted'})"
+
                 try:
                     raw = list(L.ungroup_notes(g, orphaned_notes=L.POL[pol])) if pol else list(L.ungroup_notes(iter(g)))
                 except L.Orphaned as e:
-                    raise Violation(f"{what} raised OrphanedNoteException({e}) although group_notes never puts a note inside a joined hold")
+                    raise Violation(f"{what()} raised OrphanedNoteException({e}) although group_notes never puts a note inside a joined hold")
                 compare(plain(L, raw, what), exp, by_type, what)
                 n += 1
     return n, M
@@ -210,19 +218,22 @@ def check_split(L, case):
     desc = "[" + ", ".join("(" + " ".join(f"{it[1]}:c{it[2]}:{it[3]}" + (f"[{it[5]}]" if it[5] is not None else "") + (f"->{it[6]}" if it[0] == "W" else "") for it in g) + ")" for g in groups) + "]"
     n = 0
     for pol in ("raise", "keep", "drop", None):
-        what = f"ungroup_notes({desc}, orphaned_notes={pol or 'omitted'})"
+
+        def what(pol=pol):
+            return f"ungroup_notes({desc}, orphaned_notes={pol or 'omitted'})"
+
         eff = pol or "raise"
         n += 1
         try:
             raw = list(L.ungroup_notes(rgroups, orphaned_notes=L.POL[pol])) if pol else list(L.ungroup_notes(rgroups))
         except L.Orphaned as e:
-            need(eff == "raise" and splitting, f"{what} raised OrphanedNoteException({e}); splitting notes per the model: {fmt(splitting)}")
+            need(eff == "raise" and splitting, lambda: f"{what()} raised OrphanedNoteException({e}); splitting notes per the model: {fmt(splitting)}")
             if e.args and isinstance(e.args[0], L.Note):
                 a = e.args[0]
                 named = (a.beat, a.column, a.note_type.value, a.player, a.keysound_index)
-                need(named in splitting, f"{what} raised about {named}, which does not lie inside a joined hold on its column; splitting notes: {fmt(splitting)}")
+                need(named in splitting, lambda: f"{what()} raised about {named}, which does not lie inside a joined hold on its column; splitting notes: {fmt(splitting)}")
             continue
-        need(not (eff == "raise" and splitting), f"{what} did not raise although {fmt(splitting)} lie(s) inside a joined hold on the same column")
+        need(not (eff == "raise" and splitting), lambda: f"{what()} did not raise although {fmt(splitting)} lie(s) inside a joined hold on the same column")
         exp = flat if eff != "drop" else [x for x in flat if x not in splitting]
         compare(plain(L, raw, what), exp, by_type, what, tails_modulo_keysound=True)
     nholds = sum(1 for it in items if it[0] == "W")
@@ -394,7 +405,7 @@ def parts(tier):
     if not q:
         out.append({"name": "grid-2x4", "kind": "enum", "iter": _grid_iter(4, "0123M", 625), "exhaustive": True})
     out += [
-        {"name": "streams", "kind": "hypothesis", "strategy": s_stream, "examples": 5000 if q else 16 * 12000},
-        {"name": "hand-built", "kind": "hypothesis", "strategy": s_split, "examples": 4000 if q else 16 * 10000},
+        {"name": "streams", "kind": "hypothesis", "strategy": s_stream, "examples": 5000 if q else 16 * 8000},
+        {"name": "hand-built", "kind": "hypothesis", "strategy": s_split, "examples": 4000 if q else 16 * 6000},
     ]
     return out
